@@ -211,8 +211,51 @@ pub fn c03(ctx: &mut Ctx, acc: &mut Acc) -> i32 {
     let _ = OUTCOME_CLASSES;
     if ctx.shard == 0 && !ctx.only_fresh() {
         skipped_chunks(acc);
+        position_limits(acc);
     }
     0
+}
+
+/// A made-optional step is written as one signed byte: 0 / negative = position in chunk 0, positive = chunk number.
+/// The last values that fit are position 128 and chunk 127; the scenarios sit on both sides of each limit.  Writer = the
+/// definition with the step, reader = the definition just before it: the reader must see the value, not the option tag.
+fn position_limits(acc: &mut Acc) {
+    use sbase::Model;
+    use subjects::special::{Chunk127, Chunk127O, Chunk128, Chunk128O, Wide129, Wide129O, Wide130, Wide130O};
+    fn run<W: Model + desert::BinarySerializer, R: Model + desert::BinaryDeserializer>(acc: &mut Acc, what: &str, n_fields: usize) {
+        // every field carries its index + 1 (so that an option tag read as a value — 1 — is told apart), the last one 200
+        let plain: Vec<Val> = (0..n_fields).map(|i| Val::U(if i + 1 == n_fields { 200 } else { (i as u128 % 100) + 2 })).collect();
+        let mut written = plain.clone();
+        written[n_fields - 1] = Val::some(Val::U(200));
+        acc.case(Some(refmodel::rng::fnv64_str(what)));
+        let (r, _) = sbase::monitored(None, || {
+            let w = W::from_val(&Val::Rec(written.clone()));
+            let bytes = desert::serialize_to_byte_vec(&w).map_err(|e| sbase::classify(&e))?;
+            let back: R = desert::deserialize(&bytes).map_err(|e| sbase::classify(&e))?;
+            Ok(back.to_val())
+        });
+        match r {
+            Call::Ok(v) if v == Val::Rec(plain.clone()) => acc.count(&format!("position_limit:{what}:as_documented")),
+            Call::Ok(v) => {
+                let last = match &v {
+                    Val::Rec(f) => f.last().map(|x| x.render(40)).unwrap_or_default(),
+                    other => other.render(40),
+                };
+                acc.violation(
+                    format!("C03|position_limit|{what}|silently_different_value"),
+                    J::obj().with("check", J::s("C03")).with("mode", J::s("content")).with("what", J::s(what)).with("last_field_read", J::s(last)).with("documented", J::s("200")),
+                )
+            }
+            other => acc.violation(
+                format!("C03|position_limit|{what}|{}", other.class()),
+                J::obj().with("check", J::s("C03")).with("mode", J::s("content")).with("what", J::s(what)).with("got", J::s(other.class())),
+            ),
+        }
+    }
+    run::<Chunk127O, Chunk127>(acc, "made_optional_in_chunk_127", 128);
+    run::<Wide129O, Wide129>(acc, "made_optional_at_position_128", 129);
+    run::<Chunk128O, Chunk128>(acc, "made_optional_in_chunk_128", 129);
+    run::<Wide130O, Wide130>(acc, "made_optional_at_position_129", 130);
 }
 
 /// An added field whose type is itself a derived record: a reader from before the addition skips its chunk unread.
